@@ -3,6 +3,7 @@ import itertools
 import math
 import warnings
 import numpy as np
+import common
 from common import xr, xvec, from_xr, from_xvec, num_close
 
 ID = "C05"
@@ -155,8 +156,10 @@ def impl(op):
         if a[0] == "det":
             m = verif.metric.get(a[1])
             m.aggregator = verif.aggregator.get(a[2])
-            r = m.compute_from_obs_fcst(np.array(from_xvec(a[3]), float), np.array(from_xvec(a[4]), float))
-            return xr(float(r))
+            o_, f_ = np.array(from_xvec(a[3]), float), np.array(from_xvec(a[4]), float)
+            guard = common.Unchanged(o_, f_)
+            r = m.compute_from_obs_fcst(o_, f_)
+            return guard.tag(xr(float(r)))
         if a[0] == "detperfect":
             m = verif.metric.get(a[1])
             return "ERR" if m.perfect_score is None else xr(m.perfect_score)
@@ -308,6 +311,8 @@ def _agg_py(agg, v):
 
 def judge(op, impl_out, spec_out):
     a = op.split(" ")
+    if common.mutated_verdict(op, impl_out):
+        return common.mutated_verdict(op, impl_out)
     if a[0] == "seq":
         toks, items = impl_out.split(" "), _seq_items(op)
         if len(toks) != len(items):
